@@ -31,7 +31,7 @@ def observe2 (before after : State2) : List (String × Json) :=
   let emitted := new.filter (·.rnd != 0)
   let notices := (new.filter (·.rnd == 0)).length
   [("out", Json.arr (emitted.map Mps.Drv.Handler.msgJ).toArray), ("closed", decide (after.closes > 0)),
-   ("notice", if emitted.length < 2 then Json.num notices else Json.str "any"), ("term", termJ2 after)]
+   ("notice", Json.num notices), ("term", termJ2 after)]
 
 abbrev Store2 := List (String × State2)
 def getS (st : Store2) (sid : String) : Option State2 := (st.find? (·.1 == sid)).map (·.2)
